@@ -59,7 +59,8 @@ CLAIMS["C14"] = {
             "future registers the waker before its upgraded Arc can die, None=>Ready, Some=>Pending (R14.2); shutdown consumes the runner, "
             "notifies usize::MAX listeners on every path before returning a future that only holds a Weak (R14.3); in run() the only "
             "cancellable region is select(stop, preamble) with stop first, handler and close() lie outside it and the stop arm returns with "
-            "no further I/O (R14.4). The implication to the statement is the hand argument in DESIGN.md; scheduler liveness and the "
+            "no further I/O (R14.4); on every path from a suspension of the connection task (or its start) to a handler invocation the stop "
+            "listener is polled first, so no handler begins in a scheduling step that started after shutdown() (R14.5). The implication to the statement is the hand argument in DESIGN.md; scheduler liveness and the "
             "linearizability of AtomicWaker/event-listener are trusted.",
     "note": "futures_util::future::select polls its first argument first (0.3.31, read in the registry source); AtomicWaker register/wake linearizable.",
     "design_ref": "DESIGN.md §4 C14",
@@ -161,16 +162,23 @@ CLAIMS["C18"] = {
 }
 
 CLAIMS["C03"] = {
-    "technique": "decision-table rows and path rules (order of effects on every path) over resolved MIR",
+    "technique": "decision-table rows and path rules over resolved MIR; path-sensitive abstract interpretation of the buffer bookkeeping in linear cursor forms (Fourier-Motzkin entailment, loop invariant check-and-havoc)",
     "text": "Decides the structural clauses: Done/Fatal are sticky - State::drive returns them untouched without driving or emitting (R3.1); "
             "request::Parser::parse clears its output then drives the state machine on every return path, with no early-out, and stores "
             "StuckOnInput as Fatal (R3.2); the panic fallback is Fatal(Paniced) (R3.3); every Err exit of the stream parser's header "
             "dispatch leaves the parser untouched, so the error repeats and nothing more is emitted (R3.4); decode failures are classified "
             "identically at the three header sites - unknown version: error without consuming, unknown type: one reply and skip (R3.5); "
             "the parser-error -> io::ErrorKind table is total and as documented (R3.6); conversions at non-final states fail with "
-            "Interrupted before any mutation (R3.7); stream::Parser::parse always enters its processing loop (R3.8). Does NOT decide "
-            "absence of panics (an inventory of panic-capable sites is reported as information) nor chunking-invariance of outcomes.",
-    "note": "Panic-freedom would need relational numeric reasoning across calls (declined in DESIGN.md §8).",
+            "Interrupted before any mutation (R3.7); stream::Parser::parse always enters its processing loop (R3.8). Buffer bookkeeping (E8): "
+            "compress / consume_stream / discard_stream / move_input keep the cursor invariant, never overwrite live bytes and leave every live "
+            "region where the new cursors point (R3.10); in both parsers' framing code (stream parse / parse_payload / parse_head, request parse, "
+            "Skip / GetValues / Params / Header drives) every subtraction, u8/u16 addition, narrowing cast, slice, split_at, copy_within and "
+            "indexed access is proved in range on every path from the types' ranges, the path condition and the cursor invariant (R3.11). "
+            "Does NOT decide panics outside those obligations (expect/unwrap on Option/Result values, e.g. in parse_buffered's length "
+            "arithmetic: inventory reported as information) nor chunking-invariance of outcomes.",
+    "note": "R3.11 assumes three callee contracts (io::Write::write returns n <= buf.len(); NVIter only shrinks its slice, see C16 R16.1/R16.2; the remainder "
+            "returned through replace_with_and_return is a reborrow of input[..input_len]); the crate-local contracts (parse_stream, parse_buffered, "
+            "parse_payload, parse_head) are verified as postconditions.",
     "design_ref": "DESIGN.md §4 C03",
 }
 CLAIMS["C05"] = {
@@ -185,13 +193,15 @@ CLAIMS["C05"] = {
     "design_ref": "DESIGN.md §4 C05",
 }
 CLAIMS["C06"] = {
-    "technique": "path rule on request::Parser::parse, allocation-size provenance, expression-shape check",
+    "technique": "path rules on request::Parser::parse and the Params framing (record-end discipline), allocation-size provenance, expression-shape check",
     "text": "Decides sentence 2 of the statement outright: on every return path of request::Parser::parse, after the drive and the "
             "compaction, a non-final parser either has input_len != input.len() (so input_buffer() = input[input_len..] is non-empty) or "
             "stores Fatal(StuckOnInput) and reports done from that very call, and StuckOnInput is stored in no other case (R6.2); both "
             "parsers allocate config.aligned_bufsize() bytes (R6.1); aligned_bufsize has the shape {<=24 -> 24, overflow -> usize::MAX, "
-            "else (n+7) & !7} (R6.3, shape only). Does NOT decide sentence 1 (pairs within B-13 never get stuck, for every segmentation): "
-            "arithmetic over runtime lengths.",
+            "else (n+7) & !7} (R6.3, shape only). For sentence 1 it decides two necessary conditions named by the statement's mechanism: the "
+            "payload goes to parse_stream with rec_end = false exactly under data.len() < payload_rem and otherwise as data[..payload_rem] with "
+            "rec_end = true (R6.4), and with rec_end every unparsed byte is moved to the heap-side pair buffer and reported consumed (R6.5) - so a "
+            "fragment at a record end never waits in the input buffer for padding. Does NOT decide the arithmetic sufficiency of B-13 itself.",
     "note": "R6.3 checks the expression shape, it does not evaluate it; the pinned config_bufsize test samples values.",
     "design_ref": "DESIGN.md §4 C06",
 }
